@@ -1350,3 +1350,244 @@ Lemma storage_kernel_ok params states inputs os v l a :
   storage_kernel params states inputs =
     Some ([map r_volume os; map r_outflow os; map r_rainfallVolume os; map r_evaporationVolume os], [v; l; a]).
 Proof. unfold storage_kernel. intros ->. reflexivity. Qed.
+
+(** * Part 7: a concrete run (non-vacuity) and the strict reading of "volumes traversed" *)
+
+(** a 3-row table: nothing can be released below 500 m3, up to 8 m3/s at 600 m3 (full supply) *)
+Definition ex_tbl : tables :=
+  {| nlva := 3;
+     t_levels := [0; 5; 6]; t_volumes := [0; 500; 600]; t_areas := [0; 0; 0];
+     t_minRelease := [0; 0; 0]; t_maxRelease := [0; 0; 8] |}.
+Definition ex_cv : curves := {| tb := ex_tbl; volCurveMin := 0; volCurveMax := 600; maxSpill := 0 |}.
+(** one 60 s step from empty: 10 m3/s inflow, demand 100 m3/s, no rain, no PET *)
+Definition ex_in : tsin :=
+  {| i_rainfall := 0; i_pet := 0; i_inflow := 10; i_demand := 100;
+     i_targetMinimumVolume := 0; i_targetMinimumCapacity := 0 |}.
+
+Lemma ex_wf_tables : wf_tables ex_tbl.
+Proof.
+  constructor; cbn; try reflexivity; try lia.
+  repeat constructor; lra.
+Qed.
+
+Lemma ex_make_curves : make_curves ex_tbl = Some ex_cv.
+Proof. reflexivity. Qed.
+
+Ltac rcond :=
+  match goal with
+  | |- context [Rltb ?a ?b] =>
+      first [ rewrite (proj2 (Rltb_true a b)) by lra | rewrite (proj2 (Rltb_false a b)) by lra ]
+  | |- context [Rleb ?a ?b] =>
+      first [ rewrite (proj2 (Rleb_true a b)) by lra | rewrite (proj2 (Rleb_false a b)) by lra ]
+  end.
+
+(** look-ups used by the run (for any curves over the volumes 0, 500, 600) *)
+Lemma gen_cp_low cv v ys y0 y1 y2 :
+  t_volumes (tb cv) = [0; 500; 600] -> volCurveMin cv = 0 -> volCurveMax cv = 600 ->
+  0 <= v <= 500 -> ys = [y0; y1; y2] ->
+  capped_piecewise cv v ys = Some (y0 + (v - 0) / (500 - 0) * (y1 - y0)).
+Proof.
+  intros Ev E0 E1 Hv ->. unfold capped_piecewise, st_piecewise, gtb, geb. rewrite Ev, E0, E1. cbn. runfold.
+  repeat rcond. reflexivity.
+Qed.
+Lemma ex_cp_low v ys y0 y1 y2 : 0 <= v <= 500 -> ys = [y0; y1; y2] ->
+  capped_piecewise ex_cv v ys = Some (y0 + (v - 0) / (500 - 0) * (y1 - y0)).
+Proof. apply gen_cp_low; reflexivity. Qed.
+Lemma ex_cp_600 ys y0 y1 y2 : ys = [y0; y1; y2] ->
+  capped_piecewise ex_cv 600 ys = Some (y1 + (600 - 500) / (600 - 500) * (y2 - y1)).
+Proof.
+  intros ->. unfold capped_piecewise, st_piecewise, gtb, geb. cbn. runfold.
+  repeat rcond. reflexivity.
+Qed.
+Lemma ex_cp_low0 v ys y1 y2 : 0 <= v <= 500 -> ys = [0; y1; y2] -> y1 = 0 ->
+  capped_piecewise ex_cv v ys = Some 0.
+Proof.
+  intros Hv -> ->. rewrite (ex_cp_low v _ 0 0 y2 Hv eq_refl). f_equal. unfold Rdiv. ring.
+Qed.
+
+Lemma ex_release_low v : 0 <= v <= 500 -> release_rate ex_cv 100 v = Some 0.
+Proof.
+  intros Hv. unfold release_rate, gtb. cbn [tb ex_cv t_minRelease t_maxRelease ex_tbl].
+  rewrite (ex_cp_low0 v _ 0 0 Hv eq_refl eq_refl). runfold. rcond.
+  rewrite (ex_cp_low0 v _ 0 8 Hv eq_refl eq_refl). rcond. reflexivity.
+Qed.
+
+Lemma ex_release_600 : release_rate ex_cv 100 600 = Some 8.
+Proof.
+  unfold release_rate, gtb. cbn [tb ex_cv t_minRelease t_maxRelease ex_tbl].
+  rewrite (ex_cp_600 _ 0 0 0 eq_refl).
+  replace (0 + (600 - 500) / (600 - 500) * (0 - 0)) with 0 by (unfold Rdiv; ring).
+  runfold. rcond.
+  rewrite (ex_cp_600 _ 0 0 8 eq_refl).
+  replace (0 + (600 - 500) / (600 - 500) * (8 - 0)) with 8 by (field; lra).
+  rcond. reflexivity.
+Qed.
+
+Definition ex_ctx : tsctx := ts_context ex_cv 60 ex_in.
+Definition ex_pass : pass :=
+  {| p_volume := 0; p_inflow := 10; p_demand := 100; p_net := c_net ex_ctx; p_estOutflow := 0; p_area := 0 |}.
+
+Lemma ex_net : c_net ex_ctx = 0.
+Proof. unfold ex_ctx, ts_context, MILLIMETRES_TO_METRES. cbn. runfold. unfold Rdiv. ring. Qed.
+
+Lemma ex_trial : trial_step ex_cv ex_pass 60 = TAccept 600 8 4 0.
+Proof.
+  unfold trial_step, geb, ex_pass. cbn [p_volume p_inflow p_demand p_net p_estOutflow p_area].
+  rewrite ex_net. runfold.
+  replace (0 + (10 - 0 + 0 * 0) * 60) with 600 by ring.
+  rcond.
+  cbn [tb ex_cv t_areas ex_tbl].
+  replace ((600 + 0) / 2) with 300 by lra.
+  rewrite (ex_cp_low0 300 _ 0 0 ltac:(lra) eq_refl eq_refl).
+  replace (0 + (10 - 0 + 0 * 0) * 60) with 600 by ring.
+  rewrite ex_release_600.
+  replace ((8 + 0) / 2) with 4 by lra.
+  replace (0 + (10 - 4 + 0 * 0) * 60) with 360 by ring.
+  rcond.
+  unfold MIN_TIMESTEP_SECONDS_POSITIVE. runfold.
+  destruct (release_rates_close_enough 0 4); [reflexivity|]. rcond. reflexivity.
+Qed.
+
+Definition ex_ss : substep :=
+  {| ss_v0 := 0; ss_h := 60; ss_est := 0; ss_vp := 600; ss_after := 8; ss_out := 4; ss_area := 0;
+     ss_vmid := 0 + (10 + c_net ex_ctx * 0 - 4) * 60; ss_spill := 0;
+     ss_v1 := 0 + (10 + c_net ex_ctx * 0 - 4) * 60 |}.
+Definition ex_s1 : ostate :=
+  {| o_volume := 0 + (10 + c_net ex_ctx * 0 - 4) * 60;
+     o_timeRemaining := 60 - 60; o_subtimestep := 60;
+     o_outflowVolume := 0 + 4 * 60;
+     o_rainfallVol := 0 + c_rainfallPerSecond ex_ctx * (1 / 1000) * 0 * 60;
+     o_evaporationVol := 0 + c_petPerSecond ex_ctx * (1 / 1000) * 0 * 60;
+     o_trace := [ex_ss] |}.
+
+Lemma ex_outer1 f : outer_step (S f) ex_cv ex_ctx (ts_initial 60 0) = inl ex_s1.
+Proof.
+  unfold outer_step, gtb. cbn [autoAdjustDemand andb ts_initial o_timeRemaining o_volume o_subtimestep
+                               o_outflowVolume o_rainfallVol o_evaporationVol o_trace].
+  runfold. rcond.
+  replace (Rmin 60 (60 * 2)) with 60 by (rewrite Rmin_left; lra).
+  change (c_origDemand ex_ctx) with 100. change (c_inflow ex_ctx) with 10.
+  rewrite (ex_release_low 0) by lra.
+  cbn [tb ex_cv t_areas ex_tbl]. rewrite (ex_cp_low0 0 _ 0 0 ltac:(lra) eq_refl eq_refl).
+  cbn [inner_loop]. fold ex_pass. rewrite ex_trial.
+  unfold MILLIMETRES_TO_METRES. runfold. cbn [volCurveMax ex_cv].
+  rewrite ex_net.
+  rcond. rcond. unfold ex_s1, ex_ss. rewrite ex_net. reflexivity.
+Qed.
+
+Lemma ex_outer2 f : outer_step f ex_cv ex_ctx ex_s1 = inr (ODone ex_s1).
+Proof.
+  unfold outer_step, gtb. cbn [ex_s1 o_timeRemaining]. runfold. rcond. reflexivity.
+Qed.
+
+Lemma ex_ts_loop : ts_loop ex_cv 60 ex_ctx 0 = ODone ex_s1.
+Proof.
+  unfold ts_loop. rewrite iter_pos_nat.
+  destruct (outer_fuel_enough 60 ltac:(lra)) as (n & -> & Hn).
+  destruct n as [|m]; [cbn in Hn; lra|].
+  cbn [iter_nat]. unfold inner_fuel. rewrite ex_outer1, ex_outer2. reflexivity.
+Qed.
+
+Definition ex_out : tsout :=
+  {| r_volume := o_volume ex_s1; r_outflow := o_outflowVolume ex_s1 / 60;
+     r_rainfallVolume := o_rainfallVol ex_s1 / 60; r_evaporationVolume := o_evaporationVol ex_s1 / 60;
+     r_substeps := [ex_ss] |}.
+
+Lemma ex_step : storage_step ex_cv 60 (SOk 0) ex_in = (SOk (r_volume ex_out), Some ex_out).
+Proof. unfold storage_step. fold ex_ctx. rewrite ex_ts_loop. reflexivity. Qed.
+
+Lemma ex_volume : r_volume ex_out = 360.
+Proof. unfold ex_out, ex_s1. cbn [r_volume o_volume]. rewrite ex_net. ring. Qed.
+
+Lemma ex_run : storage_water_balance ex_tbl 60 0 [ex_in] = ROk [ex_out] 360 (0 + (360 - 0) / (500 - 0) * (5 - 0)) 0.
+Proof.
+  unfold storage_water_balance. rewrite ex_make_curves.
+  assert (E : storage_configuration_error (nlva ex_tbl) (t_volumes ex_tbl) = Some false).
+  { unfold storage_configuration_error, maximum, gtb. cbn. runfold. repeat rcond. reflexivity. }
+  rewrite E. rewrite run_cons. rewrite ex_step. cbn [run all_some]. rewrite ex_volume.
+  cbn [t_levels t_areas ex_tbl].
+  rewrite (ex_cp_low 360 _ 0 5 6 ltac:(lra) eq_refl).
+  rewrite (ex_cp_low0 360 _ 0 0 ltac:(lra) eq_refl eq_refl). reflexivity.
+Qed.
+
+(** Non-vacuity of the C13 theorems: a well-formed table with ordered curves and a run that
+    returns normally; its reported values. *)
+Theorem storage_example_run :
+  wf_tables ex_tbl /\ Forall2 Rle (t_minRelease ex_tbl) (t_maxRelease ex_tbl) /\
+  make_curves ex_tbl = Some ex_cv /\
+  storage_water_balance ex_tbl 60 0 [ex_in] = ROk [ex_out] 360 (0 + (360 - 0) / (500 - 0) * (5 - 0)) 0 /\
+  r_volume ex_out = 360 /\ r_outflow ex_out = 4 /\ r_rainfallVolume ex_out = 0 /\ r_evaporationVolume ex_out = 0 /\
+  release_volume ex_out = 4 * 60 /\ spill_volume ex_out = 0.
+Proof.
+  split; [exact ex_wf_tables|]. split; [cbn; repeat constructor; lra|].
+  split; [exact ex_make_curves|]. split; [exact ex_run|]. split; [exact ex_volume|].
+  unfold release_volume, spill_volume, sumf. cbn. repeat split; first [lra | field; lra].
+Qed.
+
+(** The strict reading of "between the curves over the volumes traversed" is FALSE of the
+    scheme: the release rate is re-evaluated at the PREDICTED end volume (600 here), which
+    the corrected step does not reach.  In this run the reservoir goes from 0 to 360 m3,
+    the maximum-release curve is 0 at every volume in [0,360], yet 4 m3/s are released.
+    (Only sub-steps accepted at <= 60 s without the closeness test can do this by more than
+    the 1e-4 / 1e-5 tolerances.) *)
+Theorem storage_release_within_end_volumes_refuted :
+  exists tbl dt V0 x o v l a cv,
+    wf_tables tbl /\ Forall2 Rle (t_minRelease tbl) (t_maxRelease tbl) /\ 0 < dt /\
+    make_curves tbl = Some cv /\
+    storage_water_balance tbl dt V0 [x] = ROk [o] v l a /\
+    (forall u, V0 <= u <= r_volume o -> capped_piecewise cv u (t_maxRelease tbl) = Some 0) /\
+    spill_volume o = 0 /\ r_outflow o = 4.
+Proof.
+  exists ex_tbl, 60, 0, ex_in, ex_out, 360, (0 + (360 - 0) / (500 - 0) * (5 - 0)), 0, ex_cv.
+  destruct storage_example_run as (W & O & C & R & V & Q & _ & _ & _ & S).
+  split; [exact W|]. split; [exact O|]. split; [lra|]. split; [exact C|]. split; [exact R|].
+  split; [|split; assumption].
+  intros u Hu. rewrite V in Hu. apply (ex_cp_low0 u _ 0 8); [lra|reflexivity|reflexivity].
+Qed.
+
+(** ** "the code panics rather than go negative": a dry reservoir whose table has a non-zero
+    surface area at zero volume, any evaporation and no inflow.  The first trial volume is
+    negative at the 6 s floor, so the Go code panics (the process dies). *)
+Definition dry_tbl : tables :=
+  {| nlva := 3;
+     t_levels := [0; 5; 6]; t_volumes := [0; 500; 600]; t_areas := [10; 10; 10];
+     t_minRelease := [0; 0; 0]; t_maxRelease := [0; 0; 8] |}.
+Definition dry_cv : curves := {| tb := dry_tbl; volCurveMin := 0; volCurveMax := 600; maxSpill := 0 |}.
+Definition dry_in : tsin :=
+  {| i_rainfall := 0; i_pet := 6; i_inflow := 0; i_demand := 0;
+     i_targetMinimumVolume := 0; i_targetMinimumCapacity := 0 |}.
+
+Lemma dry_cp0 ys y1 y2 y0 : ys = [y0; y1; y2] -> capped_piecewise dry_cv 0 ys = Some y0.
+Proof.
+  intros ->. rewrite (gen_cp_low dry_cv 0 _ y0 y1 y2) by (try reflexivity; lra).
+  f_equal. unfold Rdiv. ring.
+Qed.
+
+Theorem storage_dry_reservoir_panics :
+  wf_tables dry_tbl /\ Forall2 Rle (t_minRelease dry_tbl) (t_maxRelease dry_tbl) /\
+  storage_water_balance dry_tbl 6 0 [dry_in] = RPanic.
+Proof.
+  split; [constructor; cbn; try reflexivity; try lia; repeat constructor; lra|].
+  split; [cbn; repeat constructor; lra|].
+  unfold storage_water_balance. change (make_curves dry_tbl) with (Some dry_cv).
+  assert (E : storage_configuration_error (nlva dry_tbl) (t_volumes dry_tbl) = Some false).
+  { unfold storage_configuration_error, maximum, gtb. cbn. runfold. repeat rcond. reflexivity. }
+  rewrite E, run_cons.
+  assert (S : storage_step dry_cv 6 (SOk 0) dry_in = (SPanic, None)).
+  { unfold storage_step, ts_loop. rewrite iter_pos_nat.
+    destruct (Pos2Nat.is_succ (outer_fuel 6)) as [n ->]. cbn [iter_nat].
+    assert (O1 : outer_step (inner_fuel 6) dry_cv (ts_context dry_cv 6 dry_in) (ts_initial 6 0) = inr OPanic).
+    { unfold outer_step, gtb. cbn [autoAdjustDemand andb ts_initial o_timeRemaining o_volume o_subtimestep
+                                   ts_context c_origDemand c_inflow c_net dry_in i_demand i_inflow i_rainfall i_pet].
+      runfold. rcond.
+      replace (Rmin 6 (6 * 2)) with 6 by (rewrite Rmin_left; lra).
+      unfold release_rate, gtb. cbn [tb dry_cv t_minRelease t_maxRelease t_areas dry_tbl].
+      rewrite (dry_cp0 _ 0 0 0 eq_refl). runfold. rcond.
+      rewrite (dry_cp0 _ 0 8 0 eq_refl). rcond.
+      rewrite (dry_cp0 _ 10 10 10 eq_refl).
+      unfold inner_fuel. cbn [inner_loop]. unfold trial_step.
+      cbn [p_volume p_inflow p_estOutflow p_net p_area]. unfold MILLIMETRES_TO_METRES, MIN_TIMESTEP_SECONDS_NEGATIVE.
+      runfold. rcond. rcond. reflexivity. }
+    rewrite O1. reflexivity. }
+  rewrite S. cbn [run]. reflexivity.
+Qed.
